@@ -113,7 +113,8 @@ def env_is_proper_substring_of_list(env: dict, atoms) -> bool:
 
 # ---- F4: literal-on-the-left in / not in -----------------------------------------------------------
 
-FRESH = ["platform_version", "platform_machine", "implementation_name"]
+FRESH = ["platform_version", "platform_machine", "implementation_name", "platform_system", "platform_python_implementation",
+         "os_name", "sys_platform"]
 
 
 def rename_reversed_in(texts: list[str], env: dict):
